@@ -571,7 +571,22 @@ func runPrograms(thorough bool) func(shard, shards int, deadline time.Time) *exp
 						}
 					}
 					_ = sg
-					s := "C08/books-unbalanced-after-program-calling-" + first
+					// ... and by whether the program had already written the token's storage in the running transaction when
+					// that method was called (the lost-update mechanism of the known findings needs such an earlier write)
+					where := "/without-earlier-token-write"
+					written := false // some earlier action wrote the token's storage through the running EVM
+					for _, n := range names {
+						if strings.HasPrefix(n, first) && written {
+							where = "/after-earlier-token-write"
+						}
+						if !strings.HasPrefix(n, "bridgeCall") && !strings.HasPrefix(n, "cancelSendToExternal") && !strings.HasPrefix(n, "increaseBridgeFee") {
+							written = true
+						}
+					}
+					if first == "token-calls-only" {
+						where = ""
+					}
+					s := "C08/books-unbalanced-after-program-calling-" + first + where
 					d = o + ": " + d
 					res.ViolationCounts[s]++
 					for _, v := range res.Violations {
